@@ -207,6 +207,32 @@ def exportEnt (alive : V → Bool) (e : Ent) : Except Err (List Tag) :=
       | .entity => storageOrder.flatMap (storagePart e)
       | .xdata => xdataOut e)
 
+/-! ## XRECORD (entities/dxfobj.py): base class and XDATA by the generic code above, the payload by `XRecord` -/
+
+def sAcDbXrecord : List Nat := [65, 99, 68, 98, 88, 114, 101, 99, 111, 114, 100]   -- "AcDbXrecord"
+
+/-- `XRecord.load_dxf_attribs`: (dxf.cloning, self.tags) from `processor.subclasses[1:]`; `none` = DXFStructureError
+    "Missing subclass AcDbXrecord".  The first tag of the subclass is the marker, the second the cloning flag 280 (default 1). -/
+def xrecordPayload (keepLater : Bool) (subs : List (List Tag)) : Option (V × List Tag) :=
+  match subs with
+  | [] => none
+  | s1 :: later =>
+    let hd : V × Nat := match s1 with
+      | _ :: t :: _ => if t.code == 280 then (t.val, 2) else (.str [49], 1)
+      | _ => (.str [49], 1)
+    some (hd.1, s1.drop hd.2 ++ (if keepLater then later.flatten else []))
+
+/-- `DXFEntity.export_dxf` of an XRecord: generic base class, `XRecord.export_entity`, XDATA (embedded objects are not kept) -/
+def exportXRecord (alive : V → Bool) (e : Ent) : Except Err (List Tag) :=
+  match reactorsPart e.reactors, xrecordPayload xrecordKeepsLaterSubclasses e.subs with
+  | .error x, _ => .error x
+  | .ok _, none => .error .noType
+  | .ok re, some (cl, payload) =>
+    .ok (entityOrder.flatMap fun
+      | .base => ⟨structureMarker, e.typ⟩ :: baseOrder.flatMap (basePart alive e re)
+      | .entity => ⟨100, .str sAcDbXrecord⟩ :: ⟨280, cl⟩ :: payload
+      | .xdata => xdataOut e)
+
 /-- load, then save -/
 def roundtrip (alive : V → Bool) (ts : List Tag) : Except Err (List Tag) :=
   match load ts with
@@ -482,9 +508,16 @@ def customLoad (groups : List (V × V)) : List (V × V) := pairUp (customStack g
 def customGroups (ps : List (V × V)) : List (V × V) :=
   ps.flatMap (fun p => [(.str sCustomTag, p.1), (.str sCustomProp, p.2)])
 
-/-- the custom properties are written inside the loop over the exported variables, right after $LASTSAVEDBY -/
-def customWritten (exported : List V) (ps : List (V × V)) : List (V × V) :=
-  exported.flatMap (fun n => if n == .str sLastSavedBy then customGroups ps else [])
+/-- `HeaderSection.export_dxf`: the custom properties are written inside the loop over the exported variables right behind
+    $LASTSAVEDBY; when the loop did not write them, the statement behind the loop does (`Gen.customFallback`: only for a target
+    version >= R2004, because $CUSTOMPROPERTYTAG / $CUSTOMPROPERTY are R2004 header variables).  `r2004` = dxfversion >= DXF2004. -/
+def customWritten (r2004 : Bool) (exported : List V) (ps : List (V × V)) : List (V × V) :=
+  exported.flatMap (fun n => if n == .str sLastSavedBy then customGroups ps else []) ++
+    (if exported.contains (.str sLastSavedBy) then []
+     else match customFallback with
+       | .never => []
+       | .always => customGroups ps
+       | .fromR2004 => if r2004 then customGroups ps else [])
 
 /-- `ClassesSection.register`: the key (name, cpp_class_name) is kept once, first wins -/
 def register (acc : List (V × V)) : List (V × V) → List (V × V)
